@@ -9,16 +9,63 @@ def classify(sig, sc, obs):
 
 
 def scenarios(ctx, n):
-    yield from scen(ctx, ALGOS, n, zero_frac=0.15)
+    yield from scen(ctx, ALGOS, n, zero_frac=0.15, pp_multi_only=False)
     s = ctx.seed * 7919
     for i in range(n // 5):
         yield preempt_scenario(s + i)
 
 
+def simulator_runs(ctx, n):
+    """the whole `run_simulator` path (parameter validation, generated workload, end-of-run aggregation) over random valid
+    configurations, also at decimal tick rates and with durations below one tick: it must return statistics"""
+    import logging, random, sys, traceback
+    from common import REPO, known_match
+    logging.disable(logging.CRITICAL)
+    if REPO not in sys.path:
+        sys.path.insert(0, REPO)
+    from eudoxia.simulator import run_simulator
+    from layer_s import template_scheduler
+    rng = random.Random(ctx.seed + 99)
+    for i in range(n):
+        algo = rng.choice(["naive", "priority", "priority-pool", "overbook", "template"])
+        tps = rng.choice([1, 3, 10, 100, 1000, 100000]) if i % 3 else rng.choice([1, 10])
+        probs = rng.choice([(0.3, 0.1, 0.6), (0.0, 0.0, 1.0), (1.0, 0.0, 0.0), (0.0, 1.0, 0.0), (0.25, 0.25, 0.5)])
+        dur = rng.choice([0.0004, 0.5, 1, 3, 10]) if tps >= 1000 else rng.choice([0.5, 1, 5, 30, 60])
+        params = {"duration": dur, "ticks_per_second": tps, "waiting_seconds_mean": rng.choice([0.0004, 0.2, 1.0, 5.0]),
+                  "num_pipelines": rng.randint(1, 4), "num_operators": rng.choice([1, 3, 5]), "interactive_prob": probs[0], "query_prob": probs[1],
+                  "batch_prob": probs[2], "cpu_io_ratio": rng.choice([0.0, 0.5, 1.0]),
+                  "scheduler_algo": template_scheduler() if algo == "template" else algo,
+                  "num_pools": 2 if algo == "priority-pool" else rng.choice([1, 2, 4]), "cpus_per_pool": rng.choice([1, 4, 64]),
+                  "ram_gb_per_pool": rng.choice([0.5, 8, 64, 256]), "multi_operator_containers": True if algo == "priority-pool" else rng.random() < 0.5,
+                  "allow_memory_overcommit": algo == "overbook", "random_seed": rng.randint(0, 10 ** 6)}
+        if int(dur * tps) > 60000:
+            params["duration"] = 60000 / tps
+        ctx.coverage["evaluations"] += 1
+        ctx.sit("run_simulator_calls")
+        try:
+            st = run_simulator(params)
+            if st.containers_completed == 0 and st.failures == 0:
+                ctx.sit("runs_in_which_no_container_finished")
+            ctx.coverage["distinct_nontrivial"] += 1
+        except BaseException as e:
+            tb = traceback.extract_tb(e.__traceback__)
+            where = next((f"{fr.name}" for fr in reversed(tb) if "eudoxia" in fr.filename), "?")
+            sig = {"clause": "run_simulator-raised", "exception": type(e).__name__, "where": where}
+            v = {"what": f"run_simulator raised {type(e).__name__}: {str(e)[:120]} (in {where}) for a valid configuration", "layer": "M",
+                 "params": {**params, "scheduler_algo": algo}, "sig": sig}
+            if known_match("C08", v) or sum(1 for x in ctx.violations if x["sig"] == sig) < 1:
+                if not any(x["sig"] == sig for x in ctx.violations):
+                    ctx.violations.append(v)
+
+
 def run(ctx):
     n = 150 if ctx.quick() else 1500
     slayer.run_scenarios_s(ctx, "C08", scenarios(ctx, n), classify=classify)
+    simulator_runs(ctx, 60 if ctx.quick() else 600)
 
 
 def replay(ctx, rep):
-    slayer.replay_s(ctx, "C08", rep)
+    if "params" in rep:
+        simulator_runs(ctx, 60)
+    else:
+        slayer.replay_s(ctx, "C08", rep)
